@@ -1,6 +1,6 @@
 -------------------------- MODULE DispatcherTrace --------------------------
 (* Recorded operation sequences of the real EventDispatcher checked against Dispatcher.
-   event: [op, ev, prio, stops, id, calls, ids, all, r]  (unused fields carry neutral values)
+   event: [op, ev, prio, stops, spawn, pre, id, calls, ids, all, r, exc]  (unused fields carry neutral values)
    P-clauses (the property): what a dispatch calls.  A-clauses: query results.                      *)
 EXTENDS Dispatcher, TraceKit
 
@@ -9,21 +9,23 @@ tvars == <<vars, tid, l>>
 T == Traces[tid]
 Ev == T[l]
 
-TEvents == {"e1", "e2", "e3"}
+TEvents == {"e1", "e2", "e3", ""}
 TPrios == -1000..1000
 TSpawns == {NoSpawn} \cup {[ev |-> e, prio |-> p] : e \in TEvents, p \in {-5, 0, 5}}
 
 TInit == tid \in 1..NTraces /\ l = 1 /\ Init
 Adv == l' = l + 1 /\ tid' = tid
-Is(op) == l <= Len(T) /\ Ev.op = op
+\* no operation of the dispatcher may fail: dispatching calls listeners, it never raises by itself
+Is(op) == l <= Len(T) /\ Ev.op = op /\ Check(tid, l, "P.no_exception", Ev.exc, Ev.exc = "")
 
 TAdd == /\ Is("add") /\ Adv
         /\ Add(Ev.ev, Ev.prio, Ev.stops, Ev.spawn)
         /\ Check(tid, l, "H.add.id", "", last'.id = Ev.id)
 
 TDispatch == /\ Is("dispatch") /\ Adv
-             /\ Dispatch(Ev.ev)
-             /\ Check(tid, l, "P.dispatch.calls", "", Ev.calls = Calls(Order(Ev.ev)))      \* Order: registrations before the dispatch
+             /\ Dispatch(Ev.ev, Ev.pre)
+             /\ Check(tid, l, "P.dispatch.calls", IF Ev.pre THEN "stopped-event" ELSE "",
+                      Ev.calls = IF Ev.pre THEN <<>> ELSE Calls(Order(Ev.ev)))      \* Order: registrations before the dispatch
              /\ Note(tid, l, "A.dispatch.calls", Ev.calls = last'.calls)
 
 TGet == /\ Is("get") /\ Adv /\ GetListeners(Ev.ev)
